@@ -99,7 +99,7 @@ func runRedialM(rec *Rec, app *App, g *Gates, fw *forwarder, sc *RedialMScenario
 	g.ResetHits()
 	hooks := &dialHooks{rec: rec}
 	disc := &rmDisc{}
-	cli := erpc.NewPeer(erpc.PeerConfig{RedialTimes: 1, RedialInterval: 3 * time.Millisecond, DialTimeout: 200 * time.Millisecond}, hooks, disc)
+	cli := erpc.NewPeer(erpc.PeerConfig{RedialTimes: 1, RedialInterval: 3 * time.Millisecond, DialTimeout: 2 * time.Second}, hooks, disc)
 	sess, st := cli.Dial(fw.addr)
 	rec.Emit("DialDone", "ok", st.OK())
 	if !st.OK() {
